@@ -136,6 +136,26 @@ def real(case):
     return out
 
 
+def tool_removals(ctx, res, structs):
+    """`motif_extractor` with --remove-isolated / --remove-pseudoknots on a dot-bracket file that spells the structure with
+    the first-come-first-served levels (legal, not the optimal spelling): what it prints is what the library gives for the
+    structure the removals leave - the pairs written with round brackets by the structure's OWN optimal notation"""
+    from corr.c07 import real_cli
+    rng = ctx.rng
+    knotted = [(q, p) for q, p in structs if any(x > 1 for x in (component_sizes(p) or []))]
+    knotted = rng.sample(knotted, min(len(knotted), ctx.pick(120, 1200)))
+    cases = [(q, p, True, rng.random() < 0.4, True) for q, p in knotted] + [(q, p, True, True, False) for q, p in knotted[: len(knotted) // 3]]
+    for c, o in zip(cases, parallel_map(real_cli, cases)):
+        res.count("tool:motif_extractor:" + ("+".join(n for n, f in (("remove-isolated", c[3]), ("remove-pseudoknots", c[4])) if f)))
+        res.case(("tool", tuple(c[1]), c[3], c[4]), nontrivial=True)
+        inp = {"seq": c[0], "pairs": c[1], "family": "tool:motif_extractor", "dbn": True, "remove_isolated": c[3], "remove_pseudoknots": c[4]}
+        if "err" in o:
+            res.fail("spec", "C12:tool:raises:" + str(o["err"]), inp, "motif_extractor.main raised %s" % o["err"])
+        elif o["out"] != o["exp"]:
+            res.fail("spec", "C12:tool:removal-differs-from-library", inp,
+                     "printed %r, the library's removals give %r" % (o["out"][:160], o["exp"][:160]))
+
+
 def run(ctx):
     res = Result("C12")
     res.rule = ("cases = (structure, call sequence over %d public methods); quick: all sequences of length <=2 on a few structures, "
@@ -314,6 +334,7 @@ def run(ctx):
             res.fail("spec", "C12:without_isolated:not-long-stems", inp, "without_isolated != pairs of stems of length >= 2 / sequence changed")
     for c, o in list(zip(cases, outs))[::max(1, len(cases) // 5)][:5]:
         res.sample({"seq": c[0][:30], "pairs": c[1][:30], "ops": c[2], "answers": [a[1][:40] for a in o["got"]]})
+    tool_removals(ctx, res, structs)
     return res
 
 
@@ -321,6 +342,8 @@ def shrink(ctx, f):
     """shortest prefix/sub-sequence of the history that still differs from fresh"""
     from core import ddmin
     inp = f["input"]
+    if "ops" not in inp:
+        return f
 
     def bad(ops):
         o = real((inp["seq"], inp["pairs"], ops, tuple(inp.get("derived_by", []))))
@@ -335,6 +358,14 @@ def shrink(ctx, f):
 
 def replay(ctx, data):
     inp = data["input"]
+    if inp.get("family") == "tool:motif_extractor":
+        from corr.c07 import real_cli
+        o = real_cli((inp["seq"], inp["pairs"], True, inp["remove_isolated"], inp["remove_pseudoknots"]))
+        print("printed :", o.get("out", o))
+        print("library :", o.get("exp"))
+        if o.get("out") != o.get("exp"):
+            print("SPEC FAILURE C12:tool:removal-differs-from-library")
+        return
     o = real((inp["seq"], inp["pairs"], inp["ops"], tuple(inp.get("derived_by", []))))
     if inp.get("derived_by"):
         print("object under test = result of", " . ".join(inp["derived_by"]), "on the given structure")
